@@ -4,6 +4,8 @@ import (
 	"fmt"
 	"go/token"
 	"go/types"
+	"os"
+	"runtime/debug"
 	"sort"
 	"strings"
 
@@ -27,6 +29,9 @@ func (e *Engine) verifyFunc(fn *ssa.Function, c *Contract, sweep bool) (u *Unit,
 			case unsupportedErr:
 				err = x
 			case evalErr:
+				if os.Getenv("GOCV_DEBUG") != "" {
+					fmt.Fprintf(os.Stderr, "evalErr %s\n%s\n", x.msg, debug.Stack())
+				}
 				err = fmt.Errorf("binding: %s", x.msg)
 			default:
 				panic(r)
@@ -93,6 +98,7 @@ func (e *Engine) verifyFunc(fn *ssa.Function, c *Contract, sweep bool) (u *Unit,
 			}
 		}
 	}
+	u.initClosureCtx(st)
 	u.logical = map[string]Term{}
 	if c != nil {
 		for _, lv := range c.Logical {
@@ -149,6 +155,9 @@ func (e *Engine) verifyFunc(fn *ssa.Function, c *Contract, sweep bool) (u *Unit,
 		// vacuity: the precondition together with the type facts must be satisfiable
 		u.cover(st, fn.Pos(), "requires is satisfiable")
 	}
+	if c != nil {
+		u.ghostUpdates(st, "entry", u.newCtx(st, nil))
+	}
 	u.entry = st.clone()
 	u.execBlock(st, nil, fn.Blocks[0])
 	return u, nil
@@ -190,6 +199,17 @@ func (u *Unit) newCtx(st *State, old *State) *EvalCtx {
 			ctx.vars[fv.Name()] = u.loadLoc(st, l)
 		} else if t, ok := st.vals[fv]; ok {
 			ctx.vars[fv.Name()] = t
+		}
+	}
+	// so are the variables of the parent captured by sibling closures
+	if u.closure != nil {
+		for name, cell := range u.closure.byName {
+			if _, clash := ctx.vars[name]; clash {
+				continue
+			}
+			if l, ok := u.parentCellLoc(cell); ok {
+				ctx.vars[name] = u.loadLoc(st, l)
+			}
 		}
 	}
 	return ctx
@@ -424,7 +444,18 @@ func (u *Unit) bindLocals(ctx *EvalCtx, st *State, at *ssa.BasicBlock) {
 	}
 	for name, vs := range cands {
 		if _, taken := ctx.vars[name]; taken {
-			continue
+			// a parameter that is captured by a closure lives in a cell: after entry the name denotes the cell
+			isParamCell := false
+			if _, isParam := u.params[name]; isParam {
+				for v := range vs {
+					if al, ok := v.(*ssa.Alloc); ok && addr[v] && al.Comment == name {
+						isParamCell = true
+					}
+				}
+			}
+			if !isParamCell {
+				continue
+			}
 		}
 		// keep only values that currently have a term
 		var live []ssa.Value
@@ -717,7 +748,28 @@ func (u *Unit) loopModifies(h *ssa.BasicBlock) modSet {
 	}
 	if u.contract != nil {
 		for _, g := range u.contract.Ghosts {
-			ms.ghosts[g.Var] = ""
+			// only the ghost updates attached to program points inside this loop
+			inLoop := false
+			for hb, k := range u.headers {
+				if u.loopBlocks[h][hb] && strings.HasPrefix(g.At, fmt.Sprintf("loop %d ", k)) {
+					inLoop = true
+				}
+			}
+			if strings.Contains(g.At, "call of ") {
+				want := strings.TrimSpace(g.At[strings.Index(g.At, "call of ")+len("call of "):])
+				for _, b := range blocks {
+					for _, ins := range b.Instrs {
+						if ci, ok := ins.(ssa.CallInstruction); ok {
+							if callee := ci.Common().StaticCallee(); callee != nil && callee.Name() == want {
+								inLoop = true
+							}
+						}
+					}
+				}
+			}
+			if inLoop {
+				ms.ghosts[g.Var] = ""
+			}
 		}
 	}
 	return ms
@@ -791,6 +843,13 @@ func (u *Unit) addrComps(addr ssa.Value, ms *modSet) {
 }
 
 func (u *Unit) havocAll(st *State) {
+	u.havocAllPassing(st, nil)
+}
+
+// havocAllPassing: unknown effect of a call that receives the closure `passed` (nil: none).
+func (u *Unit) havocAllPassing(st *State, passed *ssa.MakeClosure) {
+	saved := u.savePrivateCells(st, passed)
+	defer u.restorePrivateCells(st, saved)
 	st.heap = map[string]Term{}
 	st.epoch++
 	u.nfresh++
@@ -802,6 +861,8 @@ func (u *Unit) havocAll(st *State) {
 // havocAllExcept: everything may have changed except components of the given packages
 // (a callee that preserves them; objects it allocates are read as unconstrained).
 func (u *Unit) havocAllExcept(st *State, pkgs []string) {
+	saved := u.savePrivateCells(st, nil)
+	defer u.restorePrivateCells(st, saved)
 	nh := map[string]Term{}
 	for comp, t := range st.heap {
 		if pkgMatches(u.eng.compPkg[comp], pkgs) {
